@@ -456,6 +456,78 @@ def run(ctx) -> int:
     return ctx.finish()
 
 
+def _run_ops(ops):
+    """re-run an append/next/has_more sequence on the real EpochManager"""
+    EpochConfig, EpochManager, EpochType, _ = _imports()
+    m = EpochManager(None)
+    outs = []
+    for k, c in ops:
+        if k == "A":
+            try:
+                m.append(EpochConfig(EpochType(c[0]), c[1], c[2], None))
+                outs.append(("A", True))
+            except RuntimeError:
+                outs.append(("A", False))
+        elif k == "N":
+            try:
+                st = m.next()
+                outs.append(("N", (int(st.nth_epoch), int(st.time_before_epoch), int(st.config.type),
+                                   int(st.config.duration), int(st.config.thinning), int(st.time),
+                                   int(st.time_in_epoch))))
+            except RuntimeError:
+                outs.append(("N", None))
+        else:
+            outs.append(("H", bool(m.has_more())))
+    return outs
+
+
 def replay(rp) -> int:
-    print(rp)
+    """re-run the recorded failing input on the real code and judge it with the direct oracle"""
+    EpochConfig, EpochManager, EpochType, stan_epochs = _imports()
+    logging.getLogger("liesel").setLevel(logging.ERROR)
+    r = rp.get("replay", rp)
+    r = r.get("case", r)
+    verdict = None
+    if "schedule" in r:
+        sched = [tuple(c) for c in r["schedule"]]
+        ops = [("A", c) for c in sched] + [("N", None)] * len(sched)
+        verdict = oracle_b({"ops": ops, "outs": _run_ops(ops)})
+    elif "ops" in r:
+        ops = [(k, tuple(c) if c is not None else None) for k, c in r["ops"]]
+        verdict = oracle_b({"ops": ops, "outs": _run_ops(ops)})
+    elif "args" in r:
+        a = tuple(r["args"])
+        try:
+            eps = stan_epochs(*a)
+            res = [(int(e.type), int(e.duration), int(e.thinning)) for e in eps]
+        except ValueError:
+            eps, res = None, None
+        acc, chunk = None, None
+        if eps is not None:
+            try:
+                EpochManager(eps)
+                acc = True
+            except RuntimeError:
+                acc = False
+            if acc:
+                chunk = builder_chunk_safe(eps)
+        c = {"part": "C", "args": a, "res": res, "accepted": acc, "chunk": chunk}
+        if isinstance(chunk, str):
+            c["chunk_err"], c["chunk"] = chunk, None
+        verdict = oracle_c(c)
+    elif "cfgs" in r:
+        cs = [tuple(c) for c in r["cfgs"]]
+        eps = [EpochConfig(EpochType(t), d, th, None) for (t, d, th) in cs]
+        chunk = builder_chunk_safe(eps)
+        c = {"part": "C2", "cfgs": cs, "chunk": chunk}
+        if isinstance(chunk, str):
+            c["chunk_err"], c["chunk"] = chunk, None
+        verdict = oracle_c(c)
+    else:
+        print("replay file names no concrete input (broken lemma only):", r.get("broken"))
+        return 0
+    if verdict:
+        print("REPLAY FAILS:", verdict["why"], {k: v for k, v in verdict.items() if k != "why"})
+        return 1
+    print("replay passes on the current tree")
     return 0
